@@ -8,6 +8,7 @@ import JominiModel.Proofs.BinTapeNested
 import JominiModel.Proofs.BinTapeCut
 import JominiModel.Proofs.BinTapeMirror
 import JominiModel.Proofs.BinTapeReuse
+import JominiModel.Proofs.BinTapeDropped
 /-
 C03 — the binary tape mirrors the token stream; the fast paths are unobservable.
 Only property theorems live here; helper lemmas are in `Proofs/BinTape*.lean`.
@@ -150,6 +151,36 @@ token); that nothing else is left out on well-formed streams is `C03_faithful`. 
 theorem C03_tape_mirrors_lexemes (opt : Bool) (data : Bytes) (T : Tape) (h : parse opt data = .ok T)
     (L : List Lx) (hL : Lexes data L) : (flat T).Sublist L :=
   parse_mirror opt data T h L hL
+
+/-- **What the tape leaves out, exactly — for every accepted byte string, the quirk included.**  The lexeme
+list `L` of the input is an interleaving (`InterT`: both parts in their original order) of the flattened
+tape and a list `D` of dropped lexemes, and every dropped lexeme carries its cause: `eqAfterKey` (it is an
+`=`: the one after a key, including the `=` that triggers the only_empties rewrite), `ghost` (a `{` or `}`
+of a ghost object in key position), `emptyRun` (a `{` or `}` of an empty container discarded by the
+only_empties rewrite, tape.rs:600-616), `oddToken` (the one token `chunks_exact(2)` overlooks in that
+rewrite — the pinned quirk).  Hence each input lexeme appears exactly once in tape ∪ dropped:
+`L` is a permutation of `flat T ++ dropped`, and `|L| = |flat T| + |dropped|`. -/
+theorem C03_dropped_lexemes (opt : Bool) (data : Bytes) (T : Tape) (h : parse opt data = .ok T)
+    (L : List Lx) (hL : Lexes data L) :
+    ∃ D : List (Lx × DropKind), InterT (flat T) D L ∧ (∀ p ∈ D, DropOk p) ∧
+      L.Perm (flat T ++ D.map Prod.fst) ∧ L.length = (flat T).length + D.length := by
+  obtain ⟨D, hi, hd⟩ := parse_dropped opt data T h L hL
+  refine ⟨D, hi, hd, hi.perm, ?_⟩
+  have := hi.perm.length_eq
+  simpa using this
+
+/-- the quirk, accounted for: `k = { {} a b = c }` — `a` is on no tape, it is the `oddToken` -/
+example :
+    let data : Bytes := [0x82, 0x2d, 1, 0, 3, 0, 3, 0, 4, 0, 0x11, 0x11, 0x22, 0x22, 1, 0, 0x33, 0x33, 4, 0]
+    parse true data = .ok [.token 0x2d82, .object 4, .token 0x2222, .token 0x3333, .end_ 1] ∧
+    Lexes data [.tok (.token 0x2d82), .equal, .open_, .open_, .close, .tok (.token 0x1111), .tok (.token 0x2222),
+      .equal, .tok (.token 0x3333), .close] ∧
+    InterT (flat [.token 0x2d82, .object 4, .token 0x2222, .token 0x3333, .end_ 1])
+      [(.equal, .eqAfterKey), (.open_, .emptyRun), (.close, .emptyRun), (.tok (.token 0x1111), .oddToken), (.equal, .eqAfterKey)]
+      [.tok (.token 0x2d82), .equal, .open_, .open_, .close, .tok (.token 0x1111), .tok (.token 0x2222),
+        .equal, .tok (.token 0x3333), .close] :=
+  ⟨rfl, .cons rfl (.cons rfl (.cons rfl (.cons rfl (.cons rfl (.cons rfl (.cons rfl (.cons rfl (.cons rfl (.cons rfl (.done rfl)))))))))),
+   .left _ (.right (_, _) (.left _ (.right (_, _) (.right (_, _) (.right (_, _) (.left _ (.right (_, _) (.left _ (.left _ .nil)))))))))⟩
 
 /-- hypotheses satisfiable, on a tolerated malformation: `id = { I32 5 I32 6 = I32 7 }` (`=` inside an
 array): the tape, its flattening, and the lexeme list of the input (here only the `=` after the key is
